@@ -603,6 +603,8 @@ def cases(env, tier):
             yield ["nosrc", which, verb, utf8, ignore, ansi]
     for verb1, verb2, utf8, ansi, recreate in itertools.product(VERB, VERB, (True, False), (False, True), (False, True)):
         yield ["vanish", verb1, verb2, utf8, ansi, recreate]
+    for name, verb, ansi, as_home in itertools.product(CWD_NAMES, VERB, (False, True), (False, True)):
+        yield ["cwd", name, verb, ansi, as_home]
     for where, verb1, verb2, utf8a, utf8b, ansi in itertools.product(("app", "lib"), VERB, VERB, (True, False), (True, False), (False, True)):
         yield ["rerender", where, verb1, verb2, utf8a, utf8b, ansi]
     for depth, explicit in itertools.product((1, 2, 3), (True, False)):
@@ -680,8 +682,37 @@ def run_rerender(env, case):
     return v
 
 
+CWD_NAMES = ["reports [old-2019]", "a(b", "x*y?", "c++", "back\\slash", "dots.and$"]
+
+
+def run_cwd(env, case):
+    """The process runs in (and HOME points to) a directory whose name is full of characters that are special in
+    regular expressions / markup: the renderer shortens paths relative to them and must treat them as plain text."""
+    _, name, verb, ansi, as_home = case
+    d = os.path.join(env.scratch.dir, "cwd", name)
+    os.makedirs(d, exist_ok=True)
+    old, old_home = os.getcwd(), os.environ.get("HOME")
+    exc = raise_case(env, ["src", 9, 5, "plain"])
+    try:
+        os.chdir(d)
+        if as_home:
+            os.environ["HOME"] = d
+        v = check_render(env, case, exc, verb, True, "none", ansi, False)
+    finally:
+        os.chdir(old)
+        if old_home is None:
+            os.environ.pop("HOME", None)
+        else:
+            os.environ["HOME"] = old_home
+    if v:
+        v["sig"] = "cwd:" + v["sig"]
+    return v
+
+
 def run_case(env, case):
     kind = case[0]
+    if kind == "cwd":
+        return run_cwd(env, case)
     if kind == "vanish":
         return run_vanish(env, case)
     if kind == "rerender":
